@@ -2,7 +2,10 @@
 // Copyright 2019 TiKV Project Authors. Licensed under Apache-2.0.
 
 use std::cell::RefCell;
+#[cfg(not(prometheus_verif_map))]
 use std::collections::HashMap;
+#[cfg(prometheus_verif_map)]
+use crate::verif_map::HashMap;
 use std::marker::PhantomData;
 use std::sync::Arc;
 
